@@ -58,25 +58,13 @@ def Entry.ival (e : Entry) : IVal := { vlen := e.value.length, hval := e.hval, m
 
 abbrev Mapper := Bytes → Bytes → Bytes
 
-/-- Switches for three defects of the code as it is (all `true` = /repo today).  The harness probes the
-real code at every run and tells the driver which variant to execute, so the correspondence stays exact
-before and after each repair; the theorems are stated for every setting. -/
-structure Quirks where
-  /-- injective branch: the previous row version is looked up as of the FIRST tx of the bulk (`txID-1`)
-  instead of the tx being indexed (`txID+i-1`) -/
-  lookupAtBulkStart : Bool := true
-  /-- injective branch: `AsDeleted(true)` on the read-only metadata of the previous entry fails silently -/
-  tombKeepsPrevMd : Bool := true
-deriving DecidableEq, Repr
-
-/-- `store.IndexSpec` (+ the variant of the indexer code it runs on) -/
+/-- `store.IndexSpec` -/
 structure Spec where
   srcPrefix : Bytes := []
   tgtPrefix : Bytes := []
   smap : Option Mapper := none
   tmap : Option Mapper := none
   injective : Bool := false
-  q : Quirks := {}
 
 /-- what the indexer of a mapped index asks the rest of the store:
 `srcPrev b sk` = `sourceIndexer.index.GetBetween(sk, 1, b)` → tx of the newest version `<= b`
@@ -90,18 +78,10 @@ def mapKey (m : Option Mapper) (k v : Bytes) : Bytes :=
   | none => k
   | some f => f k v
 
-/-- metadata of the tombstone written for the previously mapped key.  MIRRORS THE CODE:
-`prevEntry.Metadata()` is a read-only object when the previous entry carries metadata, so
-`kvmd.AsDeleted(true)` fails and the error is dropped — the tombstone is marked deleted only when
-the previous entry had NO metadata. -/
-def tombMd (prev : KVMd) : KVMd :=
-  if prev.isEmpty then { deleted := true } else prev
-
-/-- what the tombstone should be -/
-def tombMdIntended (prev : KVMd) : KVMd := { prev with deleted := true }
-
-def Quirks.tomb (q : Quirks) (prev : KVMd) : KVMd :=
-  if q.tombKeepsPrevMd then tombMd prev else tombMdIntended prev
+/-- metadata of the tombstone written for the previously mapped key.  MIRRORS THE CODE (indexer.go, injective
+branch): `kvmd := NewKVMetadata()`, the attributes of `prevEntry.Metadata()` (read-only) are copied into it
+(`unsafeReadFrom(prev.Bytes())`: expiration, non-indexable, deleted), then `kvmd.AsDeleted(true)`, error checked. -/
+def tombMd (prev : KVMd) : KVMd := { prev with deleted := true }
 
 /-- the events (target key, ts, indexed value) one committed entry contributes to the index,
 `asOf` being the tx up to which the previous version of the row is looked up. -/
@@ -121,7 +101,7 @@ def entryEvents (sp : Spec) (env : Env) (t : Nat) (asOf : Nat) (e : Entry) : Lis
         | some pe =>
           let tpk := mapKey sp.tmap sk pe.value
           if tk = tpk then [main]
-          else [main, ⟨tpk, { vlen := pe.value.length, hval := pe.hval, md := sp.q.tomb pe.md }, t⟩]
+          else [main, ⟨tpk, { vlen := pe.value.length, hval := pe.hval, md := tombMd pe.md }, t⟩]
     else [main]
 
 /-- SPEC: per transaction the previous version is the one as of `tx.id - 1`. -/
@@ -198,16 +178,19 @@ def Vers.storeHistory (offset : Nat) (desc : Bool) (limit : Nat) (vs : Vers IVal
   | .error e => .error e
   | .ok (tvs, hCount) => .ok (numberRevs desc (if desc then hCount - offset else offset + 1) tvs, hCount)
 
-/-- `Snapshot.History` of key_reader.go AS IT IS: revision `hCount - i` whatever offset and order. -/
+/-- `Snapshot.History` of key_reader.go: its own copy of the revision arithmetic of `ImmuStore.History`
+(`rev := offset + 1`, descending `hCount - offset`, then `rev++` / `rev--`). -/
 def Vers.snapHistory (offset : Nat) (desc : Bool) (limit : Nat) (vs : Vers IVal) : Except StErr (List Ref × Nat) :=
   match liftRd (vs.history offset desc limit) with
   | .error e => .error e
-  | .ok (tvs, hCount) => .ok (numberRevs true hCount tvs, hCount)
+  | .ok (tvs, hCount) => .ok (numberRevs desc (if desc then hCount - offset else offset + 1) tvs, hCount)
 
 def storeGet (m : MVMap IVal) (now : Nat) (k : Key) := (versions m k).storeGet now
 def storeGetBetween (m : MVMap IVal) (k : Key) (init fin : Nat) := (versions m k).storeGetBetween init fin
 def storeHistory (m : MVMap IVal) (k : Key) (offset : Nat) (desc : Bool) (limit : Nat) :=
   (versions m k).storeHistory offset desc limit
+def snapHistory (m : MVMap IVal) (k : Key) (offset : Nat) (desc : Bool) (limit : Nat) :=
+  (versions m k).snapHistory offset desc limit
 
 /-- `ImmuStore.GetWithPrefix` = tree lookup, then `IgnoreExpired`, `IgnoreDeleted` on THAT key
 (a deleted first key is "not found", the lookup does not move on). -/
